@@ -61,6 +61,9 @@ Step(e) ==
          /\ Skip
     [] e.ev = "peerclosed" -> PeerClosed
     [] e.ev = "reply" -> Reply(e)
+    [] e.ev = "replyrest" ->    \* the rest of a stalled response arrives
+         /\ deliv' = [k \in DOMAIN deliv |-> IF stream[k].op = e.id THEN "full" ELSE deliv[k]]
+         /\ UNCHANGED <<op, corr, inflight, rlock, closed, reqs, stream, rpos, mis, faults, peerClosed>>
     [] e.ev = "take" -> M!PeekOK(e.id) /\ op'[e.id].pc = "own"
     [] e.ev = "yield" -> M!PeekOK(e.id) /\ UNCHANGED op
     [] e.ev = "noprogress" -> M!PeekOK(e.id) /\ op'[e.id].result = "noProgress"
